@@ -376,9 +376,14 @@ def run_f8(chk, repo):
     F8 = chk.rule('F8', 'make_declarative: every statement that is emitted and every definition that is kept pending has the '
                         'pending substitutions applied', floor=5)
     xm = repo.module('pharmpy.modeling.expressions')
-    f = xm.functions.get('make_declarative')
+    for fname in ('make_declarative', 'cleanup_model'):
+        _f8_one(chk, F8, xm, fname)
+
+
+def _f8_one(chk, F8, xm, fname):
+    f = xm.functions.get(fname)
     if f is None:
-        raise AnalysisError('make_declarative not found')
+        raise AnalysisError(f'{fname} not found')
     # the pending-substitution dictionary: subscript-assigned inside a loop and passed to .subs()
     pend = None
     for n in ast.walk(f.node):
@@ -391,7 +396,7 @@ def run_f8(chk, repo):
         isinstance(c, ast.Call) and isinstance(c.func, ast.Attribute) and c.func.attr == 'append' for c in ast.walk(L))
         and pend in {x.id for x in ast.walk(L) if isinstance(x, ast.Name)}]
     if pend is None or not loops:
-        raise AnalysisError('F8: pending-substitution dictionary / emitting loop of make_declarative not recognised')
+        raise AnalysisError(f'F8: pending-substitution dictionary / emitting loop of {fname} not recognised')
     L = loops[-1]
 
     def has_subs(e):
